@@ -122,7 +122,7 @@ PROPS["C03"]["claim"] = {
     "text": "Theorems (Properties/C03.v) on the proto model: Marshal never fails and returns exactly Size(v) bytes for every value of the universe whose encoding is shorter than 2^31 bytes; encode/size agreement for every codec and flag word; the round trip Unmarshal(Marshal(&v)) = v up to nil-vs-empty "
             "for every supported type (nesting, pointers, repeated fields and maps of any size, zigzag/fixed tags, byte arrays, RawMessage) and every representable value. The exclusions are explicit boolean predicates, each shown necessary by a machine-checked counterexample "
             "(recorded finding F17: a non-nil pointer to a message with empty encoding decodes as nil; a top-level pointer to an empty RawMessage; a 'rep' tag on a non-repeated field).",
-    "note": "Trusted as C16; map iteration order is the list order of the model (Go's random order is canonicalised by sorting in the harness).",
+    "note": "Further (Proto/RoundTripInj.v): the fuel of the round trip is an explicit function of the bytes and the type (roundtrip_explicit_fuel), and Marshal is injective up to nil-versus-empty on the universe (marshal_injective). Trusted as C16; map iteration order is the list order of the model (Go's random order is canonicalised by sorting in the harness).",
 }
 
 THRIFT_TB = COMMON_TB + ["Thrift/Model.v: hand-written model of binary.go, compact.go, encode.go, decode.go, struct.go, thrift.go, error.go (writers, readers, struct encoder/decoder, skipping, EOF normalisation, bitsets) tied by correspondence on random struct types built with reflect.StructOf",
@@ -131,7 +131,7 @@ PROPS["C04"] = {
     "harness": "c04",
     "models": ["Thrift/Model.v"],
     "rule": "hand-picked + seeded random struct types (field ids dense / gaps > 15 / ranges > 64 and > 128 / shuffled declaration order, required/optional/enum options, bools in nested and pointer positions, lists 0..16, sets, maps, nested and pointer-to structs) "
-            "x zero value and boundary-biased values x {binary strict, binary non-strict, compact}: Unmarshal(Marshal(v)) canonicalised vs v; Reset: an Encoder/Decoder first used with another protocol then Reset vs fresh",
+            "x zero value and boundary-biased values x {binary strict, binary non-strict, compact}: Unmarshal(Marshal(v)) canonicalised vs v; Reset: an Encoder/Decoder first used with another protocol then Reset vs fresh; declared self-recursive struct types (through a pointer, a list, a map; field ids spanning more than 64, required fields around the recursive one) at depths 0-3",
     "nontrivial": nontrivial_default,
     "trusted_base": THRIFT_TB,
     "assumptions": ["required pointer fields are set; no nil pointers as list elements / map values; field ids unique; -0.0 and +0.0 are the same value (the package elides zero values by ==)"],
@@ -214,7 +214,7 @@ PROPS["C17"]["claim"] = {
 }
 PROPS["C04"]["claim"] = {
     "text": "Theorems (Properties/C04.v) on the thrift model: for both protocols, every supported struct type (ids in any order and spacing, gaps > 15, ranges > 64, required/optional/enum, bools in nested and pointer positions, lists, sets, maps, nested and pointer-to structs) and every value whose required fields are set and whose encoding is shorter than 2^31 bytes, "
-            "Unmarshal(Marshal(v)) = v up to nil-vs-empty (and -0.0 = 0.0), and the two protocols decode each other's logical content to the same value. Reset of Encoder/Decoder is covered by correspondence (a reused encoder/decoder vs a fresh one).",
+            "Unmarshal(Marshal(v)) = v up to nil-vs-empty (and -0.0 = 0.0), and the two protocols decode each other's logical content to the same value; the round trip holds for EVERY fuel above len(Marshal(v)) + depth(type) (t_roundtrip_any_fuel), and Marshal is injective up to the same normalisation: two values of the universe with equal bytes are equal (t_marshal_injective). Reset of Encoder/Decoder is covered by correspondence (a reused encoder/decoder vs a fresh one).",
     "note": "Trusted: Coq kernel, the hand-written thrift model tied by correspondence (model = implementation on ~6.4k random type/value/protocol cases per run), extraction+driver, harness. Strict/non-strict binary differ only in message headers, which are outside the model; unions and unsigned kinds are outside the universe.",
 }
 PROPS["C08"]["claim"] = {
